@@ -24,6 +24,7 @@ type SrcSpec struct {
 	Form string
 	V    reflect.Value // of kindTypes[Kind]; invalid for pn / foreign
 	Own  reflect.Type  // Form "ownnilp": a typed-nil pointer to this (struct / map / slice) type
+	OwnV reflect.Value // Form "ownp": a pointer to a deep copy of the addressed element's current value
 }
 
 // Any builds the `any` the API receives.
@@ -35,6 +36,10 @@ func (s SrcSpec) Any() any {
 		return &foreignT{X: 7}
 	case "ownnilp":
 		return reflect.Zero(reflect.PointerTo(s.Own)).Interface()
+	case "ownp":
+		p := reflect.New(s.Own)
+		p.Elem().Set(DeepCopy(s.OwnV))
+		return p.Interface()
 	case "pn":
 		return reflect.Zero(reflect.PointerTo(kindTypes[s.Kind])).Interface()
 	case "p":
@@ -48,9 +53,11 @@ func (s SrcSpec) Any() any {
 
 // Toks: <kind> <form> <val> <ftext-hex> <pf>
 func (s SrcSpec) Toks() string {
-	if s.Form == "foreign" || s.Form == "foreignp" || s.Form == "ownnilp" {
-		// a typed-nil pointer to the addressed container's own type matches the emitted `value.(*T)` assertion and
-		// nothing else: the model treats it like any value no arm takes
+	if s.Form == "foreign" || s.Form == "foreignp" || s.Form == "ownnilp" || s.Form == "ownp" {
+		// a pointer to the addressed container's own type matches the emitted `value.(*T)` assertion and nothing else.
+		// Typed nil: ignored. Non-nil ("ownp"): the node is replaced by the pointed-to value — the harness passes a
+		// deep copy of the element's CURRENT value, so the replacement is invisible and the model can go on treating
+		// the value like one no arm takes (what is exercised: no panic, nothing off the path changes)
 		return "foreign " + s.Form + " - h e"
 	}
 	if s.Form == "pn" {
